@@ -411,5 +411,24 @@ def _format_value_in_pretty_table(n_decimals: int, field_name: str, value: Any) 
     return str(value)
 
 
+def _format_value_in_pretty_table_without_loss(field_name: str, value: Any) -> str:
+    """Format a value as a string in a pretty table without losing any digit.
+
+    A float is formatted with the shortest string
+    from which the same float can be read.
+
+    Args:
+        field_name: The name of the field.
+        value: The value to be formatted.
+
+    Returns:
+        The formatted string.
+    """
+    if isinstance(value, float):
+        return repr(float(value))
+
+    return str(value)
+
+
 _format_value_in_pretty_table_6 = partial(_format_value_in_pretty_table, 6)
 _format_value_in_pretty_table_16 = partial(_format_value_in_pretty_table, 16)
